@@ -331,3 +331,96 @@ def c06(work, tier, seed):
     rep.assumptions = ["derived queries (attacked/defended/check/mate/capturers/pins) are sampled over positions, not exhaustive",
                        "the enumeration's completeness is counted by TLC (2 * 2^n cases per line row) and by the driver (256 rows)"]
     return rep.finish(work)
+
+
+# ----------------------------------------------------------------------------------------
+# search family
+
+def mc_search(work, rep, tier, invariants, shift=True):
+    """TLC on the algorithm model (MCSearch) against the reference semantics (Search.tla)."""
+    quick = tier == "quick"
+    runs = [("ladder", {"Family": '"ladder"', "TreeDepth": 2, "MaxLen": 5 if quick else 7}),
+            ("all", {"Family": '"all"', "TreeDepth": 2 if quick else 3, "MaxLen": 2})]
+    tot = {}
+    for name, consts in runs:
+        consts = dict(consts)
+        consts["ShiftWindow"] = "TRUE" if shift else "FALSE"
+        cfg = vlib.cfg_text(constants=consts, invariants=invariants)
+        r = vlib.tlc(work, "MCSearch", cfg, workers=vlib.NCPU, timeout=3300, heap="12g", name="MCSearch-" + name)
+        vlib.need_tlc_ok(r, "MCSearch " + name)
+        rep.add_tlc(r)
+        tot[name] = {"trees": r.distinct, "wall_s": round(r.wall, 1), "constants": consts}
+    rep.extra["mc_search"] = tot
+
+
+def search_traces(work, vh, rep, props, jobs, timeout=3300, heap="6g"):
+    def one(job):
+        name, args = job
+        trace = work.path(name + ".ndjson")
+        vlib.run_harness(work, vh, ["searchtrace"] + args + ["-out", trace], timeout=3000)
+        if vlib.count_lines(trace) == 0:
+            raise Inconclusive("generator %s produced no events" % name)
+        r = vlib.validate_trace(work, "TraceSearch", props, trace, timeout=timeout, heap=heap)
+        ops = {}
+        for line in open(trace):
+            k = line.find('"op":"')
+            op = line[k + 6:line.find('"', k + 6)]
+            ops[op] = ops.get(op, 0) + 1
+        r.ops = ops
+        return r
+    results = vlib.run_many(one, jobs, workers=min(vlib.NCPU, 12))
+    for r in results:
+        rep.counters(r.ops)
+    for r in results[:2]:
+        for i in (2, 3):
+            line = vlib.read_line(r.trace, i)
+            if line and len(line) < 3000:
+                rep.sample(line)
+    rep.traces += sum(r.ops.get("tree", 0) + r.ops.get("qtree", 0) for r in results)
+    vlib.absorb_trace_results(rep, results)
+    return results
+
+
+ALLCFG = "morlock,hash,minimax,qsmat,qshash,turochamp,sargon,bernstein"
+
+
+@check("C03")
+def c03(work, tier, seed):
+    rep = Report("C03", tier, seed)
+    vh = vlib.build_harness(work)
+    mc_search(work, rep, tier, ["FullWindowExact", "MateWithinDepth"])
+    if tier == "quick":
+        jobs = [("c03a%d" % i, ["-mode", "c03", "-seed", seed * 100 + i, "-n", 14, "-depth", 3, "-cfgs", ALLCFG, "-limit", 40000]) for i in range(6)]
+        jobs += [("c03m%d" % i, ["-mode", "c03", "-mates", "-seed", seed * 100 + 50 + i, "-n", 6, "-depth", 5, "-cfgs", "hash,morlock", "-limit", 60000]) for i in range(4)]
+        jobs += [("c03l", ["-mode", "c03", "-ladders", "-n", 5, "-depth", 5, "-cfgs", "hash", "-limit", 60000])]
+        jobs += [("c03k", ["-mode", "c03", "-ladders", "-n", 3, "-depth", 5, "-cfgs", "morlock", "-limit", 60000])]
+    else:
+        jobs = [("c03a%d" % i, ["-mode", "c03", "-heavy", "-seed", seed * 100 + i, "-n", 150, "-depth", 3, "-cfgs", ALLCFG, "-limit", 60000]) for i in range(12)]
+        jobs += [("c03m%d" % i, ["-mode", "c03", "-mates", "-seed", seed * 100 + 50 + i, "-n", 40, "-depth", 5, "-cfgs", "hash,morlock,qshash", "-limit", 250000]) for i in range(12)]
+        jobs += [("c03d%d" % i, ["-mode", "c03", "-mates", "-seed", seed * 100 + 80 + i, "-n", 12, "-depth", 6, "-cfgs", "hash", "-limit", 400000]) for i in range(6)]
+        jobs += [("c03l%d" % i, ["-mode", "c03", "-ladders", "-n", 10, "-depth", 5, "-cfgs", c, "-limit", 100000]) for i, c in enumerate(["hash", "morlock", "qshash"])]
+    search_traces(work, vh, rep, ["C03"], jobs)
+    require(rep, ["tree", "search"], "C03")
+    rep.assumptions = ["the tree dump enumerates children with the real PushMove/PopMove (validated independently by C01/C02/C05/C08)",
+                       "explored flags are evaluated the way the search evaluates them (predicate obtained at the parent, called after the move is pushed)",
+                       "the reference negamax (Search!MM / QMM) is evaluated by TLC with Score.tla's order; it shares no code with the implementation",
+                       "a root without explored legal moves has an empty PV; roots already drawn return 0"]
+    return rep.finish(work)
+
+
+@check("C13")
+def c13(work, tier, seed):
+    rep = Report("C13", tier, seed)
+    vh = vlib.build_harness(work)
+    mc_search(work, rep, tier, ["WindowClips"])
+    if tier == "quick":
+        jobs = [("c13a%d" % i, ["-mode", "c13", "-seed", seed * 100 + i, "-n", 10, "-depth", 3, "-cfgs", "hash,morlock,qshash,qsmat,turochamp", "-limit", 30000, "-windows", 24]) for i in range(6)]
+        jobs += [("c13m%d" % i, ["-mode", "c13", "-mates", "-seed", seed * 100 + 50 + i, "-n", 5, "-depth", 5, "-cfgs", "hash,qshash", "-limit", 50000, "-windows", 30]) for i in range(6)]
+    else:
+        jobs = [("c13a%d" % i, ["-mode", "c13", "-heavy", "-seed", seed * 100 + i, "-n", 120, "-depth", 3, "-cfgs", "hash,morlock,qshash,qsmat,turochamp,sargon,bernstein", "-limit", 60000, "-windows", 60]) for i in range(12)]
+        jobs += [("c13m%d" % i, ["-mode", "c13", "-mates", "-seed", seed * 100 + 50 + i, "-n", 40, "-depth", 5, "-cfgs", "hash,qshash,morlock", "-limit", 200000, "-windows", 60]) for i in range(12)]
+    search_traces(work, vh, rep, ["C13"], jobs)
+    require(rep, ["tree", "search", "qtree", "qsearch"], "C13")
+    rep.assumptions = ["windows are built from the neighbours of the real full-window result, decided scores and mate scores of both parities; the true value they are judged against is TLC's",
+                       "every interior node of a search is such a call: enumerating root calls over many positions and windows exercises the contract the recursion relies on"]
+    return rep.finish(work)
